@@ -1416,8 +1416,10 @@ class TypeSystemDeserializer:
                 ts.create_feature(
                     t,
                     name=f.name,
-                    rangeType=f.rangeType,
-                    elementType=f.elementType,
+                    # Refer to the types by name so that the feature points to the types registered in the type
+                    # system and not to the temporary types used while parsing
+                    rangeType=f.rangeType.name,
+                    elementType=f.elementType.name if f.elementType is not None else None,
                     description=f.description,
                     multipleReferencesAllowed=f.multipleReferencesAllowed,
                 )
